@@ -68,7 +68,7 @@ def _mk_case(rng, fdir, idx, tier):
     if pace in ("stall", "slowstall"):
         c["stall_after"] = rng.choice([1, 2, max(1, total // 2), max(1, total - 1), total, total + 1, total + 2])
         c["stall_ms"] = rng.choice([120, 150, 300, 600])
-    c["wait_ms"] = int(3000 + total * c["read_delay_us"] / 1000 * 1.5 + c["stall_ms"] + c["gap_ms"] * len(payloads))
+    c["wait_ms"] = int(20000 + total * c["read_delay_us"] / 1000 * 1.5 + c["stall_ms"] + c["gap_ms"] * len(payloads))
     return c
 
 
